@@ -545,6 +545,8 @@ def f18_reasons(norm, meter):
     """Why today's play_Bars scheduler is expected to go wrong on this program (used only to key the fallback
     known-finding predicate; never to excuse anything else)."""
     why = set()
+    if not meter[1]:
+        return ["free meter"]
     length = Fraction(meter[0], meter[1])
     nb = max(len(v) for v in norm)
     if len(set(len(v) for v in norm)) > 1:
@@ -1054,7 +1056,7 @@ CLAUSES = {
 def explore(ctx):
     # -- sequential ---------------------------------------------------------------------
     if ctx.want("note"):
-        octaves = ctx.pick([0, 4, 8], list(range(0, 9)))
+        octaves = ctx.pick([0, 4, 8, 9, 10], list(range(0, 12)))        # "any note": key numbers above 127 included
         ctx.bound("note", {"names": NOTE_NAMES, "octaves": octaves, "channels": CHANNELS, "velocities": VELOCITIES,
                            "call arguments": [None, [5, 33]]})
         ctx.product("note", octaves, gen_note)
@@ -1086,7 +1088,12 @@ def explore(ctx):
     # very short entries (128th, 64th, 32nd notes): shorter than any tolerance a scheduler may use for "the same beat"
     fine = rhythm_patterns(["128", "64", "32", "4"], 3, Fraction(1, 2))
     PAR_CFG["f24"] = {"patterns": fine, "meter": (2, 4), "same_keys": True, "cycles": [("A", "A"), ("B", "C")]}
+    # bars in the free meter (0, 0), whose length attribute is 0: entries last as long as their values say
+    free = rhythm_patterns(R24, 3, Fraction(1, 2))
+    PAR_CFG["z00"] = {"patterns": free, "meter": (0, 0), "same_keys": False, "cycles": [("A", "B")]}
     if ctx.want("bars"):
+        ctx.product("bars", [("z00", i) for i in range(len(free))], gen_bars_single)
+        ctx.product("bars", [("z00", i) for i in range(len(free))], gen_bars_pairs)
         ctx.product("bars", [("f24", i) for i in range(len(fine))], gen_bars_single)
         ctx.product("bars", [("f24", i) for i in range(len(fine))], gen_bars_pairs)
         ctx.bound("bars", {"2/4 patterns over 4,8,6,12 (<=6 entries, every prefix)": len(p24),
